@@ -516,7 +516,7 @@ func parseSpecFunc(rest string) (*SpecFunc, error) {
 	return sf, nil
 }
 
-var atRe = regexp.MustCompile(`^call(?:\s+(\d+))?\s+([A-Za-z0-9_.$]+)\s*:\s*(assert|ghost|assume|gadd)\s*(.*)$`)
+var atRe = regexp.MustCompile(`^call(?:\s+(\d+))?\s+([A-Za-z0-9_.$()\[\]*]+)\s*:\s*(assert|ghost|assume|gadd)\s*(.*)$`)
 
 func parseAt(rest string, mk func(string) (*Clause, error)) (*AtClause, error) {
 	m := atRe.FindStringSubmatch(rest)
